@@ -144,7 +144,8 @@ def attr_value(spec, attr, backend):
         return [mk_parser(p) for p in v]
     if attr == "default":
         if v == "falsy":  # a default that is set and falsy
-            return {"int": 0, "none": 0, "float": 0.0, "str": ""}.get(spec["dtype"], default_value(spec["dtype"]))
+            # (the same value for every numeric dtype, like the truthy default: an update of the dtype keeps the default)
+            return {"int": 0, "none": 0, "float": 0, "str": ""}.get(spec["dtype"], default_value(spec["dtype"]))
         return default_value(spec["dtype"]) if v else None
     if attr == "metadata":
         return copy.deepcopy(v)
